@@ -1530,6 +1530,9 @@ class Emitter:
                 raise Untranslatable("macro " + e[1])
             if e[0] == "return":
                 return self.o_return(e)
+            if self.rust_text(e) in self.cfg.get("push_stmts", {}):
+                var, val = self.cfg["push_stmts"][self.rust_text(e)]
+                return f"let {var} := {var} ++ [{val}]\n{cont()}"
             if e[0] == "mcall" and e[2] == "insert" and e[1][0] == "path" and len(e[1][1]) == 1 and len(e[3]) == 2 \
                     and e[1][1][0] in self.cfg.get("map_vars", []):
                 # a map the table declares: kept as the list of its insertions, in order
@@ -1579,7 +1582,7 @@ class Emitter:
                     f"  | [] => .ok ({tup})\n"
                     f"  | {x} :: rest_ =>\n{indent(body, 4)}\n")
                 return f"(({call('(' + self.cfg['for_lists'][key][0] + ')')}).bind fun {tup} =>\n{cont()})"
-            unused = s[1][0] == "pwild" or (s[1][0] == "pvar" and s[1][1].startswith("_"))
+            unused = s[1][0] == "pwild" or (s[1][0] == "pvar" and (s[1][1].startswith("_") or self.cfg.get("loop_unused_ok")))
             if key not in counts or not lvars or not unused:
                 raise Untranslatable("loop form in outcome mode")
             idx = self.nloops
@@ -1592,10 +1595,12 @@ class Emitter:
             tup = vnames[0] if len(vnames) == 1 else "(" + ", ".join(vnames) + ")"
             tty = lvars[0][1] if len(lvars) == 1 else "(" + " × ".join(t for _, t in lvars) + ")"
             st = ["bs"] if stateful else []
+            consts = self.cfg.get("loop_consts", [])          # locals of the enclosing body the loop only reads
+            pnames = pnames + [n for n, _ in consts]
             call = lambda n: " ".join([lname] + pnames + st + vnames + [n])   # noqa: E731
             body = self.o_block(s[3][1], lambda v: call("n"))
             imp = (self.cfg.get("implicit", "") + " ") if self.cfg.get("implicit") else ""
-            sig = imp + " ".join(f"({q} : {t})" for q, t in params if q != "bs") + (" (bs : Bytes) " if stateful else " ") + " ".join(f"({n} : {t})" for n, t in lvars)
+            sig = imp + " ".join(f"({q} : {t})" for q, t in list(params) + list(consts) if q != "bs") + (" (bs : Bytes) " if stateful else " ") + " ".join(f"({n} : {t})" for n, t in lvars)
             rty = f"({tty} × Bytes)" if stateful else tty
             base = f"({tup}, bs)" if stateful else tup
             self.aux.append(
